@@ -597,6 +597,11 @@ class FnRun(FnAnalysis):
             return
         if cmp[0] == "not":
             return self.assume(st, cmp[1], not truth)
+        if cmp[0] == "implies":
+            # one-sided fact: holds only on the true edge
+            if truth:
+                self.assume(st, cmp[1], True)
+            return
         op, a, b = cmp
         if a is None or b is None or a[0] != "int" or b[0] != "int":
             return
@@ -877,6 +882,10 @@ class FnRun(FnAnalysis):
         elif last == "is_empty" and len(args) == 1 and (_c(name, "slice") or _c(name, "vec::Vec") or _c(name, "impl str") or _c(name, "String")):
             sid = self.slice_arg(st, args[0])
             res = ("bool", ("Eq", self.len_val(st, sid), V_const(0))) if sid else None
+        elif last in ("starts_with", "ends_with") and _c(name, "impl str") and len(args) == 2 and "const" in t["args"][1] and "str" in t["args"][1]["const"]:
+            sid = self.slice_arg(st, args[0])
+            n_ = len(t["args"][1]["const"]["str"].encode())
+            res = ("bool", ("implies", ("Ge", self.len_val(st, sid), V_const(n_)))) if sid else None
         # ---- deref of containers to slices
         elif last in ("deref", "deref_mut", "as_slice", "as_mut_slice", "as_bytes", "as_ref", "borrow", "as_str", "as_mut") and len(args) == 1 and args[0] and args[0][0] in ("slice", "ref") and (is_u8_seq(dcls) or dcls in ("&str", "&[u8]")):
             sid = self.slice_arg(st, args[0])
